@@ -16,6 +16,8 @@ def validate_encoded(string):
 
 def validate_decoded(obj):
   if isinstance(obj, list):
+    if len(obj) == 0:
+      raise gfapy.ValueError("the list of identifiers is empty")
     for elem in obj:
       if isinstance(elem, gfapy.Line):
         elem = str(elem.name)
